@@ -28,6 +28,7 @@ import (
 	"fmt"
 	"math/rand"
 	"reflect"
+	"runtime/debug"
 	"sort"
 	"strings"
 	"sync"
@@ -193,6 +194,11 @@ func c17ssFailClass(args, got []string) string {
 func TestVerifC17Safesplit(t *testing.T) {
 	rep := vNewReport("safesplit.SplitPkgConfigFlags: lists of 1-5 parts \"-\"+flag char (one of " + c17ssFlags + ")+content, content of 0-6 symbols over {space, tab, NBSP, U+3000, \", ', \\, -, $, (, ), {, }, =, /, comma, ASCII letters, 2/3/4-byte runes}; quoting as documented: every space/tab in content preceded by a backslash, parts joined by 1-3 blanks, optional blanks around the line and after the flag character. Domain claimed (from the doc comment): content without leading blank, a non-final content does not end in a backslash, no CR/LF. Laws: split(quote(args))==args; stable under re-quoting. Constructs whose fixed probe fails are listed in avoided_constructs and not generated")
 	defer rep.Write()
+	defer func() { // a panic of the code under test outside a guarded call is an observation, not a broken check
+		if p := recover(); p != nil {
+			rep.Fail("safesplit:panic", "monitor", fmt.Sprintf("panic escaped the monitor: %v\n%s", p, debug.Stack()), nil)
+		}
+	}()
 
 	// ---- fixed probes of the two recorded classes, always run first
 	var av c17ssAvoid
@@ -247,7 +253,7 @@ func TestVerifC17Safesplit(t *testing.T) {
 		}
 	}
 
-	total := vN(60000, 7000000)
+	total := vN(32000, 3600000)
 	var wg sync.WaitGroup
 	for s := 0; s < 8; s++ {
 		n := total / 8
